@@ -125,8 +125,17 @@ theorem rejects_examples :
     parseNPath false "a.\"b".toList = .error .value ∧          -- unterminated quote
     parseNPath false "a.\"b\\".toList = .error .value ∧        -- dangling escape
     parseNPath false "foo-bar".toList = .error .value ∧        -- not an identifier, unquoted
-    parseNPath false "foo\n".toList = .error .value := by      -- trailing newline (fixed defect)
+    parseNPath false "foo\n".toList = .error .value ∧           -- trailing newline (fixed defect)
+    parseNPath false "\"a\"b".toList = .error .value ∧          -- text after a closing quote (fixed defect)
+    parseNPath false "\"\"b".toList = .error .value := by
   decide
+
+/-- A quoted segment ends at a segment boundary: once the closing quote has been read, every
+    character but `.` makes the path malformed (repaired: `"a"b` used to be read as the name `ab`). -/
+theorem quoted_segment_ends_at_boundary (a : Bool) (st : NPState) (ch : Char)
+    (hq : st.inQuotes = false) (hs : st.quotedSeg = true) (hc : ch ≠ '.') :
+    npStep a st ch = .error .value := by
+  simp [npStep, hq, hs, hc]
 
 /-! ## 4. The defect that was repaired (`fix:` commit): with Python's `$` anchor the bare
 segment `foo\n` was accepted and written verbatim. Kept as a theorem about the model with the
